@@ -314,7 +314,7 @@ def gen_cases(rng, tier):
     # ---- op 0: small scope, systematic
     chars = [ord(c) for c in SPECIALS] + BOUNDARY + SURROGATES
     for ch in chars:
-        for shape in ([ch], [97, ch], [ch, 98], [ch, ch]):
+        for shape in ([ch], [97, ch, 98], [ch, ch]):
             for others in (False, True):
                 base = dict(user=[117], pw=[112], host=[104], port=5, db=[100], query=[[[107], [0, [118]]]]) if others else {}
                 for field in ("user", "pw", "db", "qkey", "qval", "qseq", "host"):
@@ -345,11 +345,11 @@ def gen_cases(rng, tier):
     add("defect", [0, _url(query=[[[], [0, []]]])])
     # key order: insertion order differs from sorted order
     add("order", [0, _url(query=[[[98], [0, [49]]], [[97], [1, [[50], [51]]]], [[97, 97], [0, [52]]], [[66], [0, []]]])])
-    for _ in range(9000 if thorough else 1100):
+    for _ in range(9000 if thorough else 900):
         add("random", [0, _rand_url(rng)])
 
     # ---- op 1 / op 6: parse direction on arbitrary strings
-    n1 = 6000 if thorough else 500
+    n1 = 6000 if thorough else 400
     k = 0
     while k < n1:
         s = _rand_urlstring(rng)
@@ -372,7 +372,7 @@ def gen_cases(rng, tier):
         add("quote", [2, _cp(rng.choice([" +", " +/", "", " ", "/", "@:"])), s])
         add("quote_plus", [3, s])
     pct_alpha = "%%%%0123456789abcdefABCDEFgG+ =&" + chr(233) + chr(0x20AC)
-    for _ in range(4000 if thorough else 500):
+    for _ in range(4000 if thorough else 400):
         s = "".join(rng.choice(pct_alpha) for _ in range(rng.randint(0, 12)))
         add("unquote", [4, _cp(s)])
     for _ in range(2500 if thorough else 350):
